@@ -225,6 +225,24 @@ Theorem C09_nodata_sound_guarded :
 Proof. intros. eapply top_nodata_sound; eassumption. Qed.
 Print Assumptions C09_nodata_sound_guarded.
 
+(* Completeness for NODATA at an existing name: a genuine record matching QNAME whose node lacks
+   QTYPE and CNAME is accepted, whatever other genuine records come with it. *)
+Theorem C09_nodata_complete :
+  forall H z salt iter qname qtype answers rs soft hard ts rq,
+    let h := H salt iter in
+    let lq := lower_name qname in
+    hash_ok h -> wf_zone z -> rs <> [] -> Forall (genuine h z salt iter) rs ->
+    collision_free h (z_names z ++ relevant lq) ->
+    iter <= soft -> iter <= hard ->
+    In (lq, ts) (z_nodes z) -> lacks ts qtype -> lacks ts T_CNAME ->
+    In rq rs -> label_eqb (hd [] (n3_owner rq)) (b32 (h lq)) = true ->
+    verify_nsec3 H qname qtype (Some (z_apex z)) 0 answers rs soft hard = R Secure.
+Proof.
+  intros H z salt iter qname qtype answers rs soft hard ts rq h lq Hh Hz. intros.
+  eapply (top_nodata_complete H wrap_covers z salt iter Hh Hz); eassumption.
+Qed.
+Print Assumptions C09_nodata_complete.
+
 Theorem C09_nodata_sound_rfcwrap_guarded :
   forall H z salt iter qname qtype soa answers rs soft hard,
     let h := H salt iter in
@@ -462,6 +480,20 @@ Example C09_nodata_example :
 Proof.
   cbv zeta. split; [witness_hyps|]. split; [reflexivity|]. split; [|vm_compute; auto].
   intros [Hs _]. vm_compute in Hs. discriminate.
+Qed.
+
+(* ... and those of the NODATA completeness theorem: the node of b.z. is (b.z., {A, RRSIG}), the
+   query is for MX, the single record matches b.z. *)
+Example C09_nodata_complete_example :
+  let h := GNodata.H GNodata.salt GNodata.iter in
+  let lq := lower_name GNodata.q in
+  GNodata.soa = Some (z_apex GNodata.z) /\ In (lq, [1; 46]) (z_nodes GNodata.z) /\
+  lacks [1; 46] GNodata.qt /\ lacks [1; 46] T_CNAME /\
+  label_eqb (hd [] (n3_owner (nth 0 GNodata.recs (ex_rec 0)))) (b32 (h lq)) = true.
+Proof.
+  cbv zeta. split; [reflexivity|]. split; [vm_compute; auto|].
+  split; [vm_compute; intuition discriminate|]. split; [vm_compute; intuition discriminate|].
+  vm_compute. reflexivity.
 Qed.
 
 (* wildcard NODATA: closest encloser matched, next closer covered, wildcard matched without the type *)
